@@ -7,8 +7,7 @@ From Verif Require Import Base.Num Base.Vec C15.Syntax Gen.InterpWeights C15.Mod
 Import ListNotations.
 Local Open Scope R_scope.
 
-Definition as_found : variants := {| int_raises := true; mesh1_raises := true |}.   (* the code today *)
-Definition repaired : variants := {| int_raises := false; mesh1_raises := false |}.
+(* [current] = the code today (after the repairs e032ff0, d20d299); [as_found] = the pinned snapshot *)
 
 (* "linear interpolation reproduces node values exactly, for all axis lengths >= 1":
    FALSE on an axis with a single node -- the call yields nan (finding
@@ -18,12 +17,12 @@ Lemma node_reproduction_single_node_axis_refuted :
     length c = 1%nat /\ length v = 1%nat /\
     interp_call var KLinear [] [c] DFloat v (IPoints [[nth 0 c 0]]) None <> Ok [nth 0 v 0].
 Proof.
-  exists [2], [7], repaired. repeat split. cbv [interp_call malformed mesh1 mesh1_raises repaired
+  exists [2], [7], current. repeat split. cbv [interp_call rejected mesh1 mesh1_raises current gen_linear_scheme
     existsb length Nat.eqb negb orb andb degenerate schemes_of map combine fst snd]. discriminate.
 Qed.
 
 (* "results do not depend on whether points are passed as point arrays or as a mesh grid":
-   FALSE for the code as found -- a mesh grid with one point along the first axis is rejected
+   was FALSE for the code as found (explicit old variant; REPAIRED, see Props.mesh_call_equals_points_call) -- a mesh grid with one point along the first axis is rejected
    while the same points as an array are evaluated (finding interp-meshgrid-first-axis-singleton). *)
 Lemma mesh_convention_first_axis_singleton_refuted :
   exists (cvs : list (list R)) (v : list R) (mesh : list (list R)),
@@ -31,13 +30,14 @@ Lemma mesh_convention_first_axis_singleton_refuted :
     exists r, interp_call as_found KLinear [] cvs DFloat v (IPoints (cart mesh)) None = Ok r.
 Proof.
   exists [[0; 1]; [0; 1]], [1; 2; 3; 4], [[0]; [0; 1]]. split.
-  - cbv [interp_call malformed mesh1 mesh1_raises as_found existsb length Nat.eqb negb orb andb]. reflexivity.
-  - eexists. cbv [interp_call malformed mesh1 mesh1_raises as_found existsb length Nat.eqb negb orb andb
-                  cart flat_map map app degenerate schemes_of combine fst snd]. reflexivity.
+  - cbv [interp_call rejected mesh1 mesh1_raises as_found existsb length Nat.eqb negb orb andb]. reflexivity.
+  - eexists. cbv [interp_call rejected mesh1 mesh1_raises as_found existsb length Nat.eqb negb orb andb
+                  cart flat_map map app degenerate schemes_of combine fst snd gen_linear_scheme]. reflexivity.
 Qed.
 
 (* "per-axis 'nearest' interpolation returns the value of the closest node, for integer
-   values": FALSE for the code as found -- per_axis_interpolator raises TypeError where
+   values": was FALSE for the code as found (explicit old variant; REPAIRED, see
+   Props.peraxis_all_nearest_call_is_nearest_call) -- per_axis_interpolator raises TypeError where
    nearest_interpolator returns the node value (finding per-axis-interp-integer-values-typeerror). *)
 Lemma peraxis_nearest_integer_values_refuted :
   exists (c v : list R) (x : R),
@@ -45,6 +45,6 @@ Lemma peraxis_nearest_integer_values_refuted :
     exists r, interp_call as_found KNearest [] [c] DInt v (IPoints [[x]]) None = Ok r.
 Proof.
   exists [0; 1], [1; 2], 0. split.
-  - cbv [interp_call malformed mesh1 mesh1_raises int_raises as_found existsb length Nat.eqb negb orb andb]. reflexivity.
-  - eexists. cbv [interp_call malformed mesh1 mesh1_raises as_found existsb length Nat.eqb negb orb andb]. reflexivity.
+  - cbv [interp_call rejected mesh1 mesh1_raises int_raises as_found existsb length Nat.eqb negb orb andb]. reflexivity.
+  - eexists. cbv [interp_call rejected mesh1 mesh1_raises as_found existsb length Nat.eqb negb orb andb]. reflexivity.
 Qed.
